@@ -1,6 +1,9 @@
 ---------------------------- MODULE ParamGetters ----------------------------
-(* C08, getters half: one request parameter, one typed getter call (protocol in ParamGettersOps);
-   the clauses of the property are invariants over <<parameter, call, outcome, store>>. *)
+(* C08, getters half: one request parameter and a HISTORY of typed getter calls on that one request
+   (protocol of a single call in ParamGettersOps).  The request's parameter never changes (getters only
+   read it), every call's outcome is the one the protocol gives for the unchanged parameter whatever
+   was called before, and the caller's store dict is shared by the calls.  The clauses of the property
+   are invariants over <<parameter, call, outcome, store>> and action properties over the steps. *)
 EXTENDS ParamGettersOps
 
 
@@ -14,9 +17,10 @@ VARIABLES present, vals,    \* the parameter: absent, or its values
           zero,             \* ... or present with zero values (then present = FALSE, vals = <<>>)
           call,             \* "none" | the call made
           last,             \* its outcome
-          store             \* the caller's store dict for the name: [set |-> BOOLEAN, v, vs]
+          store,            \* the caller's store dict for the name: [set |-> BOOLEAN, v, vs]
+          ncalls            \* number of calls made so far
 
-vars == <<present, vals, zero, call, last, store>>
+vars == <<present, vals, zero, call, last, store, ncalls>>
 
 NoCall == [kind |-> "none", required |-> FALSE, hasdef |-> FALSE, store |-> FALSE,
            hasmin |-> FALSE, min |-> 0, hasmax |-> FALSE, max |-> 0, bat |-> FALSE]
@@ -24,12 +28,12 @@ Unset  == [set |-> FALSE, v |-> 0, vs |-> <<>>]
 
 Init == /\ \/ present = FALSE /\ vals = <<>> /\ zero \in BOOLEAN
            \/ present = TRUE /\ zero = FALSE /\ vals \in UNION {[1..n -> 1..NV] : n \in 1..MaxOcc}
-        /\ call = NoCall /\ last = Out("none", "", 0, <<>>, FALSE) /\ store = Unset
+        /\ call = NoCall /\ last = Out("none", "", 0, <<>>, FALSE) /\ store = Unset /\ ncalls = 0
 
 ConvsOf(kind) == IF kind = "has" THEN <<>> ELSE [i \in 1..Len(vals) |-> Conv(IF kind = "list_int" THEN "int" ELSE IF kind = "list" THEN "str" ELSE kind, vals[i])]
 
 Get(c) ==
-    /\ call = NoCall /\ c.kind \in Kinds
+    /\ c.kind \in Kinds /\ ncalls' = ncalls + 1
     /\ \E o \in Outcomes(present, zero, ConvsOf(c.kind), c) :
            /\ last' = o
            /\ store' = IF o.stored THEN [set |-> TRUE, v |-> o.v, vs |-> o.vs] ELSE store
@@ -67,7 +71,7 @@ ListsReportAll ==
     (Made /\ last.res = "value" /\ call.kind \in ListKinds) => (present \/ zero) /\ Len(last.vs) = Len(vals)
 (* absent parameter: error iff required, else exactly the default *)
 HasParamExact ==
-    (Made /\ call.kind = "has") => /\ last.res = "value" /\ ~store.set
+    (Made /\ call.kind = "has") => /\ last.res = "value" /\ ~last.stored
                                    /\ (~zero => last.v = (IF present THEN 1 ELSE 0)) /\ last.v \in {0, 1}
 AbsentProtocol ==
     (Made /\ ~present /\ ~zero /\ call.kind # "has") => last.res = (IF call.required THEN "missing" ELSE IF call.hasdef THEN "default" ELSE "none")
@@ -75,13 +79,21 @@ AbsentProtocol ==
 ZeroValuesProtocol ==
     (Made /\ zero /\ call.kind \notin ListKinds \cup {"has"}) =>
         /\ last.res = (IF call.required THEN "missing" ELSE IF call.hasdef THEN "default" ELSE "none")
-        /\ ~store.set
+        /\ ~last.stored
 (* present parameter: required/default play no role; the outcome is a value or the 400-class error *)
 PresentProtocol ==
     (Made /\ present) => last.res \in {"value", "invalid"}
-(* the store is written exactly when a value is returned and a store was passed *)
+(* the store is written exactly when a value is returned and a store was passed; it then holds that value;
+   across a history it is never touched otherwise *)
 StoreOnlyOnSuccess ==
-    Made => (store.set <=> (last.res = "value" /\ call.store))
+    Made => /\ (last.stored <=> (last.res = "value" /\ call.store))
+            /\ (last.stored => store = [set |-> TRUE, v |-> last.v, vs |-> last.vs])
+            /\ (ncalls = 1 => (store.set <=> last.stored))
+StoreUntouchedOtherwise == [][(store' # store) => (last'.res = "value" /\ call'.store)]_vars
+(* getters only read: the request's parameter is the same after any number of calls *)
+ReadOnly == [][UNCHANGED <<present, vals, zero>>]_vars
+(* ... and what a call reports does not depend on what was called before *)
+HistoryFree == Made => last \in Outcomes(present, zero, ConvsOf(call.kind), call)
 (* only the last occurrence matters for the scalar getters *)
 LastOccurrenceOnly ==
     (Made /\ present /\ call.kind \notin ListKinds \cup {"has"}) =>
